@@ -53,6 +53,8 @@ def units_of(case):
     """the individual handler runs of a case (chunkings, or [chunks, a, b, end] schedules for usage cases)"""
     if case.get("kind") == "usage":
         return us.units(case)
+    if case.get("kind") == "topk":
+        return [[case["text"]]]
     return chunkings_of(case)
 
 # --------------------------------------------------------------------------------------------- chunkings
@@ -110,8 +112,14 @@ def g_word(rng, alpha, lo, hi):
     return "".join(rng.choice(alpha) for _ in range(rng.randint(lo, hi)))
 
 
+UNI_ALPHAS = ['a\u00a0"', 'a\u0301\u3000S', 'e\u0301\u2028"', '\U0001F600a\u00a0', '\u00e9\u0301\u0085']
+
+
 def g_small_cfg(rng):
     alpha = 'ab"SP'[: rng.choice([2, 3, 3, 4, 5])]
+    if rng.random() < 0.08:
+        # non-ASCII code points: no-break / ideographic / line-separator blanks, a combining mark, an astral character
+        alpha = rng.choice(UNI_ALPHAS)
     prefix = g_word(rng, alpha, 1, 3) if rng.random() < 0.55 else None
     suffix = g_word(rng, alpha, 1, 3) if rng.random() < 0.6 else None
     stop = [g_word(rng, alpha, 1, 3) for _ in range(rng.choice([0, 0, 1, 1, 1, 2, 2, 3]))]
@@ -202,13 +210,17 @@ def g_malformed_case(rng):
 
 
 USAGE_HEADS = ["u\nb\n", "u\n\nb\n", "#c\nu\nb\n", " u\n b\n", "u\nb\n\n"]
+# lines that are blank / comments only for str.strip()'s notion of white space (U+00A0, U+3000, U+2028, U+0085, \x1c)
+USAGE_HEADS_UNI = ["u\n\u00a0\nb\n", "\u3000u\n\u2028\nb\n", "u\x1c\n\u0085\nb\n", "\u00a0#c\nu\nb\n", "u\nb\n\u00a0\n", "\u2028\nu\n\u3000b\n", "u\u200b\n\u200b\nb\n"]
 
 
 def g_usage_small(rng, maxbody):
     """small single-call case: 2 header lines, then a bot-message line over a tiny alphabet; every chunking x every schedule"""
     prefix, suffix, stop = rng.choice([('  "', '"', ['"\n']), ('B"', '"', ['"\n']), ('  "', '"', ['"\n', "\nu"]), ('P', 'S', ['SX']), ('P', None, ['X']), (None, '"', ['"\n'])])
-    head = rng.choice(USAGE_HEADS)
+    head = rng.choice(USAGE_HEADS if rng.random() < 0.7 else USAGE_HEADS_UNI)
     alpha = ('ab" \n' if '"' in (suffix or "") + "".join(stop) else "abSXP\n")
+    if rng.random() < 0.15:
+        alpha += "\u00a0"
     body = "".join(rng.choice(alpha) for _ in range(rng.randint(0, maxbody)))
     r = rng.random()
     pre = (prefix or "") if r < 0.8 else (prefix or "")[:-1] if r < 0.9 else ""
@@ -217,19 +229,22 @@ def g_usage_small(rng, maxbody):
     if len(text) > 9:
         text = head + pre + tail
     text = text[:10]
+    if rng.random() < 0.1:
+        # fewer than k+1 non-empty lines / the k-th line unterminated: the waiter must never resume
+        text = rng.choice(["u\n\u00a0\n", "u\nb", "u\n#b\n x", "\n\n", "u\nb\n\u3000"]) + rng.choice(["", "\n", " "])
     return dict(kind="usage", prefix=prefix, suffix=suffix, stop=stop, k=2, text=text, mode="all", direct=False)
 
 
 def g_usage_long(rng, sites, nsamples):
     """a call site extracted from generation.py, a realistic LLM completion, sampled chunkings x sampled schedules"""
     site = rng.choice(sites)
-    intent = rng.choice(["  express greeting", "user express greeting", "User intent: ask question", "  ask about é"])
+    intent = rng.choice(["  express greeting", "user express greeting", "User intent: ask question", "  ask about é", "\u00a0 express greeting", "\u3000ask"])
     botint = rng.choice(["bot express greeting", "Bot intent: respond", "bot inform"])
     msg = "".join(rng.choice(WORDS) for _ in range(rng.randint(1, 10))).replace("\n", " ")
     r = rng.random()
     tail = "" if r < 0.4 else "\n" if r < 0.6 else "\nbot ask" + rng.choice(["", " more\n  \"x\""]) if r < 0.85 else "\n\n"
     line3 = (site["prefix"] if rng.random() < 0.9 else "") + msg + (site["suffix"] if rng.random() < 0.9 else "")
-    text = rng.choice(["", "\n", "# c\n"]) + intent + "\n" + rng.choice(["", "\n"]) + botint + "\n" + line3 + tail
+    text = rng.choice(["", "\n", "# c\n", "\u00a0\n", " \u2028\t\n", "\u3000# c\n"]) + intent + "\n" + rng.choice(["", "\n", "\u00a0\u0085\n"]) + botint + "\n" + line3 + tail
     if not site["buffered"]:
         text = line3 + tail
         cks = [[text], list(text)] + [random_chunking(rng, text, rng.choice([0.1, 0.3, 0.6])) for _ in range(nsamples)]
@@ -247,11 +262,22 @@ def g_usage_long(rng, sites, nsamples):
     return dict(kind="usage", prefix=site["prefix"] or None, suffix=site["suffix"] or None, stop=site["stop"], k=site["k"], text=text, mode="list", direct=False, schedules=scheds, site=site["site"])
 
 
+TOPK_ALPHA = ["a", "b", "#", " ", "\n", "\n", "\t", "\r", "\u00a0", "\u3000", "\u2028", "\u0085", "\x1c", "\u200b", "\x0b"]
+
+
+def g_topk_case(rng, ws_codes):
+    """one buffer for wait_top_k_nonempty_lines / the event condition, any number of lines (also fewer than k)"""
+    alpha = TOPK_ALPHA + [chr(rng.choice(ws_codes))]
+    text = "".join(rng.choice(alpha) for _ in range(rng.randint(0, 14)))
+    return dict(kind="topk", k=rng.choice([1, 2, 2, 3]), text=text)
+
+
 def gen_usage_cases(rng, tier):
     info = tr.run()
-    n_small, maxbody, n_long, ns = (70, 3, 300, 6) if tier == "quick" else (500, 5, 5000, 8)
+    n_small, maxbody, n_long, ns, n_topk = (70, 3, 300, 6, 1500) if tier == "quick" else (500, 5, 5000, 8, 12000)
     cases = [g_usage_small(rng, maxbody) for _ in range(n_small)]
     cases += [g_usage_long(rng, info["sites"], ns) for _ in range(n_long)]
+    cases += [g_topk_case(rng, info["ws_codes"]) for _ in range(n_topk)]
     return cases
 
 
@@ -341,7 +367,23 @@ async def _all_usage(case):
     return runs
 
 
+async def _topk(case):
+    """the real `_process` (buffering branch) and `wait_top_k_nonempty_lines` on one buffer; the waiter is resumed
+    even when the event is not set, so that the whole loop (also `fewer than k lines`) is compared"""
+    h = _H[0]()
+    await h.enable_buffering()
+    waiter = asyncio.ensure_future(h.wait_top_k_nonempty_lines(k=case["k"]))
+    await asyncio.sleep(0)
+    await h.push_chunk(case["text"])
+    event = h.top_k_nonempty_lines_event.is_set()
+    h.top_k_nonempty_lines_event.set()
+    returned = await waiter
+    return {"event": event, "returned": returned, "rest": h.buffer}
+
+
 def run_impl(case):
+    if case.get("kind") == "topk":
+        return asyncio.run(_topk(case))
     if case.get("kind") == "usage":
         return {"runs": asyncio.run(_all_usage(case))}
     return {"runs": asyncio.run(_all(case))}
@@ -350,6 +392,8 @@ def run_impl(case):
 # --------------------------------------------------------------------------------------------- model
 
 def model_requests(case, obs):
+    if case.get("kind") == "topk":
+        return [{"m": "C18.topk", "k": case["k"], "text": case["text"]}]
     if case.get("kind") == "usage":
         req = {"m": "C18.usage", "cfg": {"prefix": case["prefix"], "suffix": case["suffix"], "stop": case["stop"]}, "k": case["k"],
                "direct": bool(case.get("direct")), "schedules": us.units(case), "variant": "repaired"}
@@ -370,9 +414,20 @@ def _pick(case, bad):
     return bad[0]
 
 
+def compare_topk(case, obs, mouts):
+    m = mouts[0]
+    want = {"returned": m["returned"], "rest": m["rest"], "event": m["lines"] > case["k"] > 0}
+    if m["scan_rest"] != m["rest"] or m["scan_lines"] != m["lines"]:
+        return f"the character scans disagree with the line-by-line model: {m}"
+    if obs != want:
+        return f"buffer {case['text']!r} k={case['k']}: implementation {obs} but model {want}"
+    return None
+
+
 def compare_usage(case, obs, mouts):
     m, ma = mouts[0], mouts[1]
     runs = obs["runs"]
+    keys = ("items", "completion", "finished") + (() if case.get("direct") else ("returned",))
     if len(m) != len(runs) or len(ma) != len(runs):
         return f"model answered {len(m)}/{len(ma)} runs for {len(runs)} schedules"
     bad, unexplained = [], []
@@ -384,8 +439,8 @@ def compare_usage(case, obs, mouts):
         else:
             got = dict(r)
             got.pop("event", None)
-            ok = got == {x: mr[x] for x in ("items", "completion", "finished")} and mr.get("event", True)
-            ok_tree = got == {x: mar[x] for x in ("items", "completion", "finished")} and mar.get("event", True)
+            ok = got == {x: mr[x] for x in keys} and mr.get("event", True)
+            ok_tree = got == {x: mar[x] for x in keys} and mar.get("event", True)
         if not ok:
             bad.append((k, f"implementation {got} but model {mr}" + (" (the model of the tree as it is agrees with the implementation)" if ok_tree else f"; NEITHER does the model of the tree as it is agree: {mar}")))
             if not ok_tree:
@@ -398,6 +453,8 @@ def compare_usage(case, obs, mouts):
 
 
 def compare(case, obs, mouts):
+    if case.get("kind") == "topk":
+        return compare_topk(case, obs, mouts)
     if case.get("kind") == "usage":
         return compare_usage(case, obs, mouts)
     m, ma = mouts[0], mouts[1]
@@ -450,13 +507,19 @@ def expected_usage(case):
 def _failures_usage(case, obs):
     exp = expected_usage(case)
     bad = []
-    if exp is None:
+    if exp is None or (not case.get("direct") and exp_event(case["text"], case["k"]) is False):
+        # the k-th non-empty line is not terminated / nothing non-blank follows it: the waiter must not resume at all
+        for k, r in enumerate(obs["runs"]):
+            if r.get("event", True) and not case.get("direct"):
+                bad.append((k, f"the waiter of wait_top_k_nonempty_lines resumed although the text never has more than {case['k']} non-empty lines"))
         return bad
     for k, r in enumerate(obs["runs"]):
         if not r.get("event", True):
             continue  # not a schedule the library can produce (the waiter cannot have resumed yet)
         delivered = "".join(x for x in r["items"] if isinstance(x, str))
-        if delivered != exp:
+        if not case.get("direct") and r.get("returned") != us.top_k_lines(case["text"], case["k"]):
+            bad.append((k, f"wait_top_k_nonempty_lines returned {r.get('returned')!r}, expected the first {case['k']} non-empty lines {us.top_k_lines(case['text'], case['k'])!r}"))
+        elif delivered != exp:
             bad.append((k, f"the user's handler received {delivered!r}, expected {exp!r}"))
         elif r["completion"] != exp:
             bad.append((k, f"completion {r['completion']!r}, expected {exp!r} (delivered text is right)"))
@@ -465,7 +528,28 @@ def _failures_usage(case, obs):
     return bad
 
 
+def exp_event(text, k):
+    """may the waiter resume at all: the text has more than k non-empty, non-comment lines"""
+    return sum(1 for line in text.split("\n") if us._counts(line)) > k
+
+
+def _failures_topk(case, obs):
+    """written from the docstring of wait_top_k_nonempty_lines: `When k lines have been received (and k+1 has been
+    started) it will return and remove them from the buffer`"""
+    t, k = case["text"], case["k"]
+    bad = []
+    if obs["event"] != exp_event(t, k):
+        bad.append((0, f"event set = {obs['event']} for buffer {t!r}, k={k}"))
+    elif obs["returned"] != us.top_k_lines(t, k):
+        bad.append((0, f"returned {obs['returned']!r}, expected {us.top_k_lines(t, k)!r} for buffer {t!r}"))
+    elif obs["event"] and obs["rest"] != us.rest_after_top_k(t, k):
+        bad.append((0, f"buffer left {obs['rest']!r}, expected {us.rest_after_top_k(t, k)!r} for buffer {t!r}"))
+    return bad
+
+
 def _failures(case, obs):
+    if case.get("kind") == "topk":
+        return _failures_topk(case, obs)
     if case.get("kind") == "usage":
         return _failures_usage(case, obs)
     exp = expected(case)
@@ -485,6 +569,8 @@ def oracle(case, obs):
     bad = _failures(case, obs)
     if not bad:
         return None
+    if case.get("kind") == "topk":
+        return "[#0] " + bad[0][1]
     k, msg = _pick(case, bad)
     if case.get("kind") == "usage":
         return f"[#{k}] usage {'direct' if case.get('direct') else 'single-call'} text {case['text']!r} schedule (chunks, a, b, end) {us.units(case)[k]!r}: {msg}; {len(bad)}/{len(obs['runs'])} schedules fail"
@@ -522,6 +608,8 @@ def classify_usage(case, unit):
 
 def classify(case, chunks):
     """Structural class of (configuration, text, chunking) — the regions of the open findings."""
+    if case.get("kind") == "topk":
+        return None
     if case.get("kind") == "usage":
         return classify_usage(case, chunks)
     t = case["text"]
@@ -566,6 +654,8 @@ def signature(case, obs, msg):
 # --------------------------------------------------------------------------------------------- evidence helpers
 
 def nontrivial(case, obs):
+    if case.get("kind") == "topk":
+        return "\n" in case["text"] and any(not c.isspace() for c in case["text"])
     if case.get("kind") == "usage":
         return len(obs["runs"]) >= 2 and expected_usage(case) is not None and any(r.get("event", True) for r in obs["runs"])
     if case.get("malformed") or len(obs["runs"]) < 2:
@@ -607,6 +697,16 @@ def tags_usage(case, obs):
 
 
 def tags(case, obs):
+    if case.get("kind") == "topk":
+        t = ["kind:topk", "k:%d" % case["k"], "event:" + str(obs["event"]).lower()]
+        if any(ord(c) > 127 and c.isspace() for c in case["text"]):
+            t.append("topk:non-ascii-blank")
+        if any(line and not line.strip() and any(ord(c) > 127 for c in line) for line in case["text"].split("\n")):
+            t.append("topk:line-of-non-ascii-blanks-only")
+        if "\u200b" in case["text"]:
+            t.append("topk:zero-width-space-is-not-blank")
+        t.append("topk:lines-" + str(min(5, case["text"].count("\n") + 1)))
+        return t
     if case.get("kind") == "usage":
         return tags_usage(case, obs)
     t = ["mode:" + case["mode"], "end:" + case["end"], "pipe" if case["pipe"] else "queue", "feed:" + case["feed"]]
@@ -643,6 +743,11 @@ def tags(case, obs):
 
 
 def shrink(case):
+    if case.get("kind") == "topk":
+        t = case["text"]
+        for i in range(len(t)):
+            yield dict(case, text=t[:i] + t[i + 1:])
+        return
     if case.get("kind") == "usage":
         un = us.units(case)
         if len(un) > 1:
